@@ -719,3 +719,48 @@ Definition C09D_ok (raw : option config) (o0 : obs) (tr : list event) : bool := 
 (* trigger of known finding RR2: C09 proper holds, only the dead-slot clause fails *)
 Definition known_RR2 (raw : option config) (o0 : obs) (tr : list event) : bool :=
   C09_ok raw o0 tr && negb (C09D_ok raw o0 tr).
+
+(* --- C03, additional clause kept separate (added after seeded change C03-r2c,
+   which corrupted scStates itself): growth is judged against the connection
+   states that were REPORTED to the balancer, tracked from the trace alone -
+   a call may add a channel only if no pool connection's last reported state
+   is Idle or Connecting (a connection is Idle from its creation until its
+   first report). --- *)
+Fixpoint rep_new (outs : list out) (rep : list (N * cstate)) : list (N * cstate) :=
+  match outs with
+  | [] => rep
+  | ONewSC n _ :: r => rep_new r (aset rep n Idle)
+  | _ :: r => rep_new r rep
+  end.
+
+Definition rep_track (rep : list (N * cstate)) (ev : event) : list (N * cstate) :=
+  let rep1 := match ev_op ev with
+              | OpConnState sc st => match aget rep sc with Some _ => aset rep sc st | None => rep end
+              | _ => rep
+              end in
+  rep_new (ev_out ev) rep1.
+
+Definition c03s_event (rep : list (N * cstate)) (before : obs) (ev : event) : bool :=
+  match ev_op ev with
+  | OpPick _ _ _ _ _ _ | OpResume _ =>
+      if has_newsc (ev_out ev) then
+        forallb (fun kv => match aget rep (fst kv) with
+                           | Some Idle | Some Connecting | None => false
+                           | _ => true
+                           end) (o_refs before)
+      else true
+  | _ => true
+  end.
+
+Fixpoint c03s_from (rep : list (N * cstate)) (before : obs) (tr : list event) : bool :=
+  match tr with
+  | [] => true
+  | ev :: r =>
+      c03s_event rep before ev &&
+      match ev_obs ev with
+      | Some after => c03s_from (rep_track rep ev) after r
+      | None => true
+      end
+  end.
+
+Definition C03S_ok (raw : option config) (o0 : obs) (tr : list event) : bool := c03s_from [] o0 tr.
